@@ -120,10 +120,17 @@ CHECKS = {
                "successful repeat on a host whose value was already paid; distinct by (scenario, state, action, draw side).",
                O.c05, assumptions=ASSUME_COMMON + ["float32 arithmetic: rewards/values compared with tolerance 1e-5*scale"]),
     "C06": Chk("C06", GEN_RULE + "Non-trivial = state with a sensitive host at USER access or all-but-one at ROOT, or a step "
-               "whose count is within 1 of the step limit; distinct by (scenario, state) / (scenario, limit, count, state, action).",
+               "whose count is within 1 of the step limit; distinct by (scenario, state) / (scenario, limit, count, state, action). "
+               "Entry points: every registered Gymnasium id (quick: two mode variants per benchmark), nasim.make_benchmark, nasim.load and "
+               "nasim.generate(step_limit=...) environments are stepped with scans through the object the constructor returns "
+               "(for gymnasium.make the wrapper chain) for a full episode up to the scenario's limit + 4 and a second episode after reset.",
                O.c06, on_start=_c06_start, on_end=_c06_end, on_reset=_c06_reset, assumptions=ASSUME_COMMON),
     "C07": Chk("C07", GEN_RULE + "Non-trivial = execution where chance decides (0<p<1, all preconditions hold), p in {0,1} "
-               "with an adverse draw, or a re-exploit with a high draw; distinct by (scenario, state, action, draw side).",
+               "with an adverse draw, or a re-exploit with a high draw; distinct by (scenario, state, action, draw side). "
+               "Frequency phase (draw NOT intercepted): the global stream is seeded once per job and left alone over 400 (thorough 1500) "
+               "episodes in four reset idioms (reset(); reset(seed=k) once then reset(); reset(seed=episode); reset(options={})); successes "
+               "of gate-free 0<p<1 exploits must lie within 6 sigma of the stated probabilities, overall, per position after the reset "
+               "and for generative steps.",
                O.c07, assumptions=ASSUME_COMMON + [
                    "for host-configuration failures only success/state/value must be chance-independent, not the reported flag (DESIGN.md section 5)",
                    "<= 1 uniform draw per step, not 'exactly when'"]),
@@ -194,7 +201,7 @@ def _explore_shard(shard, seed, pid, tier, n_cases):
     rep = Reporter(pid, tier, chk.rule)
     runner = engine.CaseRunner(chk, rep)
     strat = engine.case_strategy(tier, chk.doc_kw, chk.weights, modes=chk.modes,
-                                 resets=chk.resets, gens=chk.gens, burn=pid in ("C06", "C13"))
+                                 resets=chk.resets, gens=chk.gens, burn=pid in ("C06", "C13"), custom=True)
     engine.drive(runner, strat, n_cases, seed)
     return rep
 
@@ -262,6 +269,189 @@ def _exh_docs_shard(shard, seed, pid, tier, n_docs, cap):
     return rep
 
 
+def _c06_entry_shard(shard, seed, pid, tier, jobs):
+    """C06 through every documented way of obtaining an environment: the flags are those of the
+    object the user steps - for gymnasium.make() that is the wrapper chain Gymnasium builds from
+    the registration.  One full episode of harmless scans up to the scenario's step limit and a
+    few steps beyond, then a reset and a second, short episode."""
+    import warnings
+    import gymnasium as gym
+    import nasim
+    rep = Reporter(pid, tier, CHECKS[pid].rule)
+    mine = [j for i, j in enumerate(jobs) if i % _ENTRY_SHARDS == shard]
+    for job in mine:
+        how, arg, modes = job
+        case0 = dict(entry_point=how, arg=arg, modes=modes)
+        try:
+            with warnings.catch_warnings():
+                warnings.simplefilter("ignore")
+                if how == "gym.make":
+                    env = gym.make(arg)
+                elif how == "make_benchmark":
+                    env = nasim.make_benchmark(arg, 3, **modes)
+                elif how == "load":
+                    env = nasim.load(sources.shipped_path(arg), **modes)
+                else:
+                    env = nasim.generate(**dict(arg, **modes))
+            base = env.unwrapped
+            lim = base.scenario.step_limit
+            flat = hasattr(base.action_space, "n")
+            if flat:
+                scans = [i for i in range(base.action_space.n) if not (base.action_space.get_action(i).is_exploit()
+                         or base.action_space.get_action(i).is_privilege_escalation())][:7]
+            else:
+                scans = [[2, 0, 0, 0, 0, 0], [3, 0, 0, 0, 0, 0], [5, 0, 0, 0, 0, 0], [4, 0, 0, 0, 0, 0]]
+            for episode, extent in ((0, (lim or 1500) + 4), (1, 6)):
+                env.reset(seed=episode) if episode == 0 else env.reset()
+                for n in range(1, extent + 1):
+                    a = scans[n % len(scans)]
+                    out = env.step(a if flat else list(a))
+                    want = lim is not None and n >= lim
+                    if bool(out[3]) is not want:
+                        raise Failure("C06:step-limit-entry", f"{how}({arg!r}): episode {episode}, after {n} step() calls since reset the "
+                                      f"step-limit flag is {out[3]}, scenario step limit {lim} (env.steps={base.steps})",
+                                      bucket=f"C06:step-limit-entry:{how}")
+                    if bool(out[2]):
+                        raise Failure("C06:done-entry", f"{how}({arg!r}): scans only, yet terminal after {n} steps", bucket=f"C06:done-entry:{how}")
+                    if lim is not None and abs(n - lim) <= 1:
+                        rep.nontriv("entry-limit", how, str(arg), str(sorted(modes.items())), n - lim, episode)
+                rep.count("C06:entry-episodes")
+            rep.count("C06:entry:" + how)
+            rep.evaluated()
+        except Failure as f:
+            rep.fail(f.bucket, f.detail, case0)
+        except Exception as e:
+            import sys
+            inside, where = engine.from_nasim(sys.exc_info()[2])
+            if not inside:
+                raise
+            rep.fail(f"{pid}:exception:{type(e).__name__}@{where}", f"{type(e).__name__}: {e} at {where} ({how} {arg!r})", case0)
+    return rep
+
+
+_ENTRY_SHARDS = 8
+
+
+def c06_entry_jobs(tier):
+    from nasim.scenarios.benchmark import AVAIL_BENCHMARKS, AVAIL_STATIC_BENCHMARKS
+    jobs = []
+    variants = [(po, d2, va) for po in ("", "PO") for d2 in ("", "2D") for va in ("", "VA")]
+    for k, b in enumerate(AVAIL_BENCHMARKS):
+        camel = "".join(g.capitalize() for g in b.split("-"))
+        pick = variants if tier == "thorough" else [variants[k % 8], variants[(3 * k + 5) % 8]]
+        for po, d2, va in pick:
+            jobs.append(("gym.make", f"{camel}{po}{d2}{va}-v0", {}))
+        jobs.append(("make_benchmark", b, dict(flat_actions=bool(k % 2))))
+        if b in AVAIL_STATIC_BENCHMARKS:
+            jobs.append(("load", b, dict(fully_obs=bool(k % 2))))
+    for lim in (1, 2, 7, 1001, 2500, None):
+        p = dict(num_hosts=5 + (lim or 0) % 4, num_services=2, seed=lim or 0)
+        if lim is not None:
+            p["step_limit"] = lim
+        jobs.append(("generate", p, {}))
+    return jobs
+
+
+def c07_freq_jobs(tier):
+    from .check_c20 import STAR
+    import copy
+    srcs = [{"kind": "shipped", "name": n} for n in ("tiny", "tiny-hard", "small", "medium")]
+    for pr in (0.1, 0.3, 0.5, 0.9):
+        d = copy.deepcopy(STAR)
+        d["exploits"]["e"]["prob"] = pr
+        srcs.append({"kind": "doc", "doc": d})
+    srcs.append({"kind": "gen", "params": dict(num_hosts=6, num_services=3, exploit_probs="mixed", seed=1)})
+    srcs.append({"kind": "gen", "params": dict(num_hosts=8, num_services=2, exploit_probs=0.35, seed=5)})
+    jobs = []
+    for i, src in enumerate(srcs):
+        for idiom in ("reset()", "reset(seed=k) once, then reset()", "reset(seed=episode)", "reset(options={})"):
+            jobs.append(dict(freq_job=len(jobs), source=src, idiom=idiom, modes={"flat_actions": bool((i + len(jobs)) % 3)},
+                             episodes=1500 if tier == "thorough" else 400))
+    return jobs
+
+
+def _c07_freq_shard(shard, seed, pid, tier, jobs):
+    """C07 where the draw is NOT intercepted: the global stream is seeded once per job and then left
+    alone over many episodes in the reset idioms Gymnasium documents; the success frequency of
+    gate-free actions with 0 < p < 1 must be compatible with p (6-sigma binomial bound) - overall, per
+    position after the reset and for generative steps.  A deterministic function of VERIF_SEED."""
+    rep = Reporter(pid, tier, CHECKS[pid].rule)
+    for job in jobs:
+        if job is None or job["freq_job"] % _ENTRY_SHARDS != shard:
+            continue
+        try:
+            try:
+                h = walk.build_harness(job["source"], job["modes"])
+            except walk.SourceRejected:
+                continue
+            spec, env = h.spec, h.env
+            init = spec.initial()
+            cands = [a for a in h.acts if a.kind == "exploit" and 0.0 < a.prob < 1.0 and not M.step(spec, init, a, "lo").gates]
+            if not cands:
+                rep.count("C07:freq-job-without-chance-action")
+                continue
+            np.random.seed(job.get("np_seed", common.mix_seed(seed, "c07freq", job["freq_job"]) % 2**32))
+            buckets = {}
+
+            def note(b, p, ok):
+                x = buckets.setdefault(b, [0, 0.0, 0.0])
+                x[0] += 1
+                x[1] += (1.0 if ok else 0.0) - p
+                x[2] += p * (1 - p)
+            for ep in range(job["episodes"]):
+                idiom = job["idiom"]
+                if idiom == "reset()":
+                    env.reset()
+                elif idiom.startswith("reset(seed=k)"):
+                    env.reset(seed=2024) if ep == 0 else env.reset()
+                elif idiom == "reset(seed=episode)":
+                    env.reset(seed=ep)
+                else:
+                    env.reset(options={})
+                owned = set()
+                for pos in range(3):
+                    free = [a for a in cands if a.target not in owned]
+                    if not free:
+                        break
+                    act = free[(ep * 3 + pos) % len(free)]
+                    out = env.step(h.real_action(act))
+                    ok = bool(out[4]["success"])
+                    note(f"position {pos + 1} after reset", act.prob, ok)
+                    note("all steps", act.prob, ok)
+                    if ok:
+                        owned.add(act.target)
+                    if out[2]:
+                        break
+                if ep % 4 == 0:
+                    act = cands[ep % len(cands)]
+                    ns, o_, r_, d_, info = env.generative_step(env.current_state, h.real_actions[h.real_index[act.key()]]) \
+                        if act.target not in owned else (None, None, None, None, None)
+                    if info is not None:
+                        note("generative steps", act.prob, bool(info["success"]))
+            for b, (n, dev, var) in sorted(buckets.items()):
+                if n < 60:
+                    continue
+                z = dev / max(var, 1e-9) ** 0.5
+                rep.nontriv("freq", job["freq_job"], b)
+                rep.count("C07:frequency-buckets")
+                rep.count("C07:frequency-steps", n)
+                if abs(dev) > 6.0 * var ** 0.5 + 1.0:
+                    raise Failure("C07:frequency", f"{job['source'].get('name') or job['source']['kind']}, {job['idiom']}: {b}: {n} chance-decided "
+                                  f"executions, successes deviate from the stated probabilities by {dev:+.1f} (z = {z:+.1f}, bound 6 sigma): "
+                                  f"the outcome is not an independent uniform draw compared with the action's probability",
+                                  bucket="C07:frequency:" + b.split()[0])
+            rep.evaluated()
+        except Failure as f:
+            rep.fail(f.bucket, f.detail, dict(job, np_seed=common.mix_seed(seed, "c07freq", job["freq_job"]) % 2**32))
+        except Exception as e:
+            import sys
+            inside, where = engine.from_nasim(sys.exc_info()[2])
+            if not inside:
+                raise
+            rep.fail(f"{pid}:exception:{type(e).__name__}@{where}", f"{type(e).__name__}: {e} at {where} (frequency job)", dict(job))
+    return rep
+
+
 def run_corpus(chk, rep):
     n = 0
     for path in sorted(glob.glob(os.path.join(common.CORPUS_DIR, chk.pid, "*.json"))):
@@ -281,8 +471,18 @@ def main(pid, tier, replay=None):
         return 2
     if replay:
         j, case = engine.load_replay(replay)
-        case = engine.case_from_json(case)
-        failed = engine.CaseRunner(chk, rep).run(case)
+        if "freq_job" in case:
+            case = engine.case_from_json(case)
+            part = _c07_freq_shard(case["freq_job"] % _ENTRY_SHARDS, seed, pid, tier, [case])
+            failed = set(part.buckets)
+            rep.merge(part)
+        elif "entry_point" in case:
+            part = _c06_entry_shard(0, seed, pid, tier, [(case["entry_point"], case["arg"], case.get("modes", {}))] + [None] * (_ENTRY_SHARDS - 1))
+            failed = set(part.buckets)
+            rep.merge(part)
+        else:
+            case = engine.case_from_json(case)
+            failed = engine.CaseRunner(chk, rep).run(case)
         print(f"replay {replay}: failing buckets {sorted(failed)}")
         for b in rep.buckets.values():
             print("  ", str(b["detail"])[:800])
@@ -306,6 +506,16 @@ def main(pid, tier, replay=None):
                 rep.merge(p)
         rep.extra["states"] = rep.extra.get("exhaustive_states", 0)
         rep.extra["transitions"] = rep.extra.get("exhaustive_transitions", 0)
+    if pid == "C06":
+        jobs = c06_entry_jobs(tier)
+        for p in engine.run_shards(_c06_entry_shard, _ENTRY_SHARDS, seed, pid=pid, tier=tier, jobs=jobs):
+            rep.merge(p)
+        rep.extra["entry_point_environments"] = len(jobs)
+    if pid == "C07":
+        jobs = c07_freq_jobs(tier)
+        for p in engine.run_shards(_c07_freq_shard, _ENTRY_SHARDS, seed, pid=pid, tier=tier, jobs=jobs):
+            rep.merge(p)
+        rep.extra["frequency_jobs"] = len(jobs)
     nshards = 16 if tier == "thorough" else 8
     total = chk.thorough * 16 if tier == "thorough" else chk.quick
     per = max(1, total // nshards)
